@@ -476,6 +476,10 @@ def _check_host(chk: "RelCheck", item: dict, backend: str) -> None:
         if st != "ok" or "keeps" not in p:
             chk.emit("conj", backend, "outside", why=p.get("why"))
             return
+        if chk.model == "Ticket" and base is None:
+            # the relative conj obligation below cannot see a defect that the plain query shares; on the second schema
+            # (no known findings there) the plain shorthand result is also compared with the reference
+            chk.check_reference(backend, ob="ref")
         # the same filter on the plain query, and the host query on its own
         saved = chk.base
         chk.base = None
